@@ -207,7 +207,9 @@ func (m *c32Model) checkFlows(t *rapid.T, what string, flows []*types.Flow, inne
 	}
 	sort.Ints(iks)
 	for _, ki := range iks {
-		if !seen[ki] {
+		// a key whose accepted flows sum to zero in every field contributes nothing to any sum: the
+		// statement does not say whether it has to be listed
+		if !seen[ki] && inner[ki].stats() != ([7]int64{}) {
 			t.Fatalf("%s: key k%d missing; model has %v in range\nmodel:\n%s", what, ki, inner[ki].stats(), m.dump())
 		}
 	}
@@ -215,13 +217,19 @@ func (m *c32Model) checkFlows(t *rapid.T, what string, flows []*types.Flow, inne
 
 type c32PolAgg struct{ allow, deny int64 }
 
-// polSums aggregates per policy name: total packets (or bytes) in+out by action.
-func (m *c32Model) polSums(per map[int]c32Sums, bytes bool) map[string]c32PolAgg {
+// polSums aggregates per policy name, by action: total packets in+out (PacketCount), bytes in+out
+// (ByteCount) or live connections (LiveConnectionCount).
+func (m *c32Model) polSums(per map[int]c32Sums, typ proto.StatisticType) map[string]c32PolAgg {
 	out := map[string]c32PolAgg{}
 	for ki, s := range per {
-		v := s.PIn + s.POut
-		if bytes {
+		var v int64
+		switch typ {
+		case proto.StatisticType_PacketCount:
+			v = s.PIn + s.POut
+		case proto.StatisticType_ByteCount:
 			v = s.BIn + s.BOut
+		case proto.StatisticType_LiveConnectionCount:
+			v = s.Live
 		}
 		a := out[m.keys[ki].policy]
 		if m.keys[ki].action == proto.Action_Allow {
@@ -241,22 +249,20 @@ func c32At(xs []int64, i int) int64 {
 	return 0
 }
 
-func (m *c32Model) checkStats(t *rapid.T, ring *storage.BucketRing, gte, lt int64, bytes, series bool) (errored bool) {
-	typ := proto.StatisticType_PacketCount
-	if bytes {
-		typ = proto.StatisticType_ByteCount
-	}
+var c32StatTypes = []proto.StatisticType{proto.StatisticType_PacketCount, proto.StatisticType_ByteCount, proto.StatisticType_LiveConnectionCount}
+
+func (m *c32Model) checkStats(t *rapid.T, ring *storage.BucketRing, gte, lt int64, typ proto.StatisticType, series bool) (errored bool) {
 	res, err := ring.Statistics(&proto.StatisticsRequest{
 		StartTimeGte: gte, StartTimeLt: lt, Type: typ, GroupBy: proto.StatisticsGroupBy_Policy, TimeSeries: series,
 	})
 	if err != nil {
 		return true
 	}
-	what := fmt.Sprintf("Statistics(gte=%d lt=%d bytes=%v series=%v)", gte, lt, bytes, series)
+	what := fmt.Sprintf("Statistics(gte=%d lt=%d type=%v series=%v)", gte, lt, typ, series)
 	seenPol := map[string]bool{}
 	if !series {
 		inner, outer := m.sumKeys(gte, lt)
-		pin, pout := m.polSums(inner, bytes), m.polSums(outer, bytes)
+		pin, pout := m.polSums(inner, typ), m.polSums(outer, typ)
 		for _, r := range res {
 			name := r.Policy.GetName()
 			if seenPol[name] {
@@ -296,7 +302,7 @@ func (m *c32Model) checkStats(t *rapid.T, ring *storage.BucketRing, gte, lt int6
 			for ki, v := range m.buckets[x] {
 				per[ki] = *v
 			}
-			want := m.polSums(per, bytes)[name]
+			want := m.polSums(per, typ)[name]
 			ga := c32At(r.AllowedIn, i) + c32At(r.AllowedOut, i)
 			gd := c32At(r.DeniedIn, i) + c32At(r.DeniedOut, i)
 			if ga != want.allow || gd != want.deny {
@@ -316,7 +322,7 @@ func (m *c32Model) checkStats(t *rapid.T, ring *storage.BucketRing, gte, lt int6
 		for ki, v := range m.buckets[s] {
 			per[ki] = *v
 		}
-		for name, want := range m.polSums(per, bytes) {
+		for name, want := range m.polSums(per, typ) {
 			if (want.allow != 0 || want.deny != 0) && !seenX[name][s] {
 				t.Fatalf("%s: policy %s has no data point for bucket %d; model has %+v\nmodel:\n%s", what, name, s, want, m.dump())
 			}
@@ -472,10 +478,11 @@ func c32NewRing(c c32Cfg, clock *int64) *storage.BucketRing {
 func TestVerifC32Ring(t *testing.T) {
 	ev.Quiet()
 	rec := ev.New("C32", "ring",
-		"rapid state machine over storage.BucketRing (ring 5..12 buckets, interval 1/2/5/15 s, pushAfter 0..3, bucketsToAggregate 1..4: flows of 4 keys with start times in the current/future/late/oldest buckets and outside history, single and multi rollovers with or without sink, sink attach (EmitFlowCollections) and detach, List/Statistics/NumFlows over aligned and unaligned ranges, full per-bucket sweep at the end. Non-trivial = a late flow landed in a not-yet-emitted past bucket, a rollover evicted a non-empty bucket and the sink received >=1 non-empty window; distinct = op-kind sequence",
+		"rapid state machine over storage.BucketRing (ring 5..12 buckets, interval 1/2/5/15 s, pushAfter 0..3, bucketsToAggregate 1..4: flows of 4 keys whose 7 statistics fields are drawn independently incl. zero (all-zero, single-field e.g. live-connections-only, one-directional, full), start times in the current/future/late/oldest buckets and outside history, single and multi rollovers with or without sink, sink attach (EmitFlowCollections) and detach, List/Statistics/NumFlows over aligned and unaligned ranges, full per-bucket sweep at the end. Non-trivial = a late flow landed in a not-yet-emitted past bucket, a rollover evicted a non-empty bucket and the sink received >=1 non-empty window; distinct = op-kind sequence",
 		"acceptance is defined by the ring's own BeginningOfHistory/EndOfHistory accessors",
 		"for bounds that are not bucket aligned only the sandwich (fully covered buckets <= result <= touched buckets) is required",
-		"Statistics results are compared as allowed/denied totals (in+out) per policy, packets and bytes")
+		"Statistics results are compared as allowed/denied totals (in+out) per policy for PacketCount, ByteCount and LiveConnectionCount, aggregated and as time series",
+		"a key whose accepted flows sum to zero in every field may or may not be listed")
 	defer rec.Write()
 	guard := &c32Guard{}
 	defer guard.install()()
@@ -517,21 +524,54 @@ func TestVerifC32Ring(t *testing.T) {
 			}
 		}
 
+		// Every statistics field is drawn on its own and may be zero: all-zero updates (a node reporting a
+		// flow it still tracks), updates carrying a single field (e.g. an idle connection: only
+		// NumConnectionsLive), one-directional traffic, and full updates.
+		drawStats := func(t *rapid.T) ([7]int64, string) {
+			var v [7]int64
+			names := []string{"pktIn", "pktOut", "bytesIn", "bytesOut", "started", "completed", "live"}
+			maxv := []int64{5, 5, 900, 900, 2, 2, 2}
+			shape := rapid.SampledFrom([]string{"any", "any", "any", "single", "single", "zero"}).Draw(t, "statsShape")
+			switch shape {
+			case "zero":
+			case "single":
+				i := rapid.IntRange(0, 6).Draw(t, "onlyField")
+				v[i] = rapid.Int64Range(1, maxv[i]).Draw(t, names[i])
+				shape = "only-" + names[i]
+			default:
+				nz := 0
+				for i := range v {
+					if rapid.Bool().Draw(t, names[i]+"NonZero") {
+						v[i] = rapid.Int64Range(1, maxv[i]).Draw(t, names[i])
+						nz++
+					}
+				}
+				shape = "mixed"
+				if nz == 0 {
+					shape = "zero"
+				} else if nz == 7 {
+					shape = "all-fields"
+				}
+			}
+			return v, shape
+		}
+
 		addFlow := func(t *rapid.T, ki int, ts int64, class string) {
 			boh, eoh := hist()
+			st, statShape := drawStats(t)
 			f := &types.Flow{
 				Key:                     m.keys[ki].key,
 				StartTime:               ts,
 				EndTime:                 ts + rapid.Int64Range(0, I).Draw(t, "duration"),
 				SourceLabels:            unique.Make("app=a,tier=x"),
 				DestLabels:              unique.Make("app=b"),
-				PacketsIn:               rapid.Int64Range(1, 5).Draw(t, "pktIn"),
-				PacketsOut:              rapid.Int64Range(0, 5).Draw(t, "pktOut"),
-				BytesIn:                 rapid.Int64Range(1, 900).Draw(t, "bytesIn"),
-				BytesOut:                rapid.Int64Range(0, 900).Draw(t, "bytesOut"),
-				NumConnectionsStarted:   rapid.Int64Range(0, 2).Draw(t, "started"),
-				NumConnectionsCompleted: rapid.Int64Range(0, 2).Draw(t, "completed"),
-				NumConnectionsLive:      rapid.Int64Range(0, 2).Draw(t, "live"),
+				PacketsIn:               st[0],
+				PacketsOut:              st[1],
+				BytesIn:                 st[2],
+				BytesOut:                st[3],
+				NumConnectionsStarted:   st[4],
+				NumConnectionsCompleted: st[5],
+				NumConnectionsLive:      st[6],
 			}
 			ring.AddFlow(f)
 			nFlows++
@@ -543,8 +583,11 @@ func TestVerifC32Ring(t *testing.T) {
 			if m.buckets[b] == nil {
 				m.buckets[b] = map[int]*c32Sums{}
 			}
+			classes["stats-"+statShape] = true
 			if m.buckets[b][ki] == nil {
 				m.buckets[b][ki] = &c32Sums{}
+				// the first update of a key in a bucket is the one that has to open the per-key window
+				classes["first-in-bucket-stats-"+statShape] = true
 			}
 			m.buckets[b][ki].add(c32Sums{f.PacketsIn, f.PacketsOut, f.BytesIn, f.BytesOut, f.NumConnectionsStarted, f.NumConnectionsCompleted, f.NumConnectionsLive, 1})
 			classes["flow-"+class] = true
@@ -676,7 +719,7 @@ func TestVerifC32Ring(t *testing.T) {
 			},
 			"stats": func(t *rapid.T) {
 				gte, lt, aligned := drawRange(t, rapid.IntRange(0, 4).Draw(t, "anyRange") != 0)
-				if m.checkStats(t, ring, gte, lt, rapid.Bool().Draw(t, "bytes"), rapid.Bool().Draw(t, "series")) {
+				if m.checkStats(t, ring, gte, lt, rapid.SampledFrom(c32StatTypes).Draw(t, "statType"), rapid.Bool().Draw(t, "series")) {
 					classes["stats-range-outside-history-error"] = true
 				} else {
 					classes["stats-ok"] = true
@@ -712,10 +755,12 @@ func TestVerifC32Ring(t *testing.T) {
 			m.checkList(t, ring, s, s+I, proto.SortBy_Time)
 		}
 		m.checkList(t, ring, boh, eoh, proto.SortBy_DestName)
-		if m.checkStats(t, ring, boh, eoh-I, false, true) {
+		if m.checkStats(t, ring, boh, eoh-I, proto.StatisticType_PacketCount, true) {
 			t.Fatalf("Statistics over [BeginningOfHistory, start of newest bucket) = [%d,%d) returned an error", boh, eoh-I)
 		}
-		m.checkStats(t, ring, boh, eoh-I, true, false)
+		m.checkStats(t, ring, boh, eoh-I, proto.StatisticType_ByteCount, false)
+		m.checkStats(t, ring, boh, eoh-I, proto.StatisticType_LiveConnectionCount, true)
+		m.checkStats(t, ring, boh, eoh-I, proto.StatisticType_LiveConnectionCount, false)
 
 		nontrivial := lateUnemitted && evictedData && emittedData
 		var cl []string
